@@ -10,8 +10,12 @@ TRUSTED = ['numpy RNG contract only: rng.shuffle permutes in place, rng.choice(B
 
 HEADER = """From Coq Require Import List Arith Bool.
 Import ListNotations.
-Require Import LD.Shuffle LD.ShuffleTie LD.ShuffleFreeze.
+Require Import LD.Shuffle LD.ShuffleTie LD.ShuffleFreeze LD.ShuffleCopies.
 """
+
+
+class _Skip(Exception):
+    pass
 
 
 class RecRng:
@@ -204,34 +208,66 @@ def run(tier):
     #       stage, the copy the profiling wrapper takes - are objects of their own: with at most ONE iterator in flight per object,
     #       interleaved with epochs of the original and of the other copies, every iterator yields a permutation
     ncopyobj = 0
+    ccases, cmeta = [], []
     for _ in range(1500 if big else 200):
         common.tick()
         n = r.randint(0, 6)
-        rs = ld.new(list(range(n))).shuffle(True, rng=np.random.RandomState(r.randint(0, 10 ** 6)))
-        objs = [rs]
+        seed = r.randint(0, 10 ** 6)
+        rng = RecRng(seed)
+        rs = ld.new(list(range(n))).shuffle(True, rng=rng)
+        objs, cops = [rs], []
         for _c in range(r.choice([1, 1, 2])):
             how = r.choice(['copy', 'copy_copy', 'map_copy', 'profile', 'copy_of_other'])
             try:
-                if how == 'copy': objs.append(rs.copy())
-                elif how == 'copy_copy': objs.append(rs.copy().copy())
-                elif how == 'map_copy': objs.append(rs.map(int).copy())
-                elif how == 'profile': objs.append(ld.core.ProfilingDataset(rs))
-                else: objs.append(objs[-1].copy())
+                if how == 'copy': objs.append(rs.copy()); cops.append('CCopy 0%nat')
+                elif how == 'copy_copy':
+                    # the intermediate copy is an object as well (never iterated)
+                    mid = rs.copy(); cops.append('CCopy 0%nat')
+                    objs.append(mid); objs.append(mid.copy()); cops.append(f'CCopy {len(objs) - 2}%nat')
+                elif how == 'map_copy': objs.append(rs.map(int).copy()); cops.append('CCopy 0%nat')
+                elif how == 'profile': objs.append(ld.core.ProfilingDataset(rs)); cops.append('CCopy 0%nat')
+                else: objs.append(objs[-1].copy()); cops.append(f'CCopy {len(objs) - 2}%nat')
             except Exception as e:
                 failures.append(dict(kind='history', summary=f'{how} of a reshuffle dataset raised {type(e).__name__}: {e}'[:300], config=dict(kind='copyobj', n=n)))
+        if rng.draws:
+            failures.append(dict(kind='history', summary=f'copying a reshuffle dataset consumed random numbers: {rng.draws[:2]}', config=dict(kind='copyobj', n=n)))
+            continue
         ncopyobj += 1
         script = [i for i in range(len(objs)) for _ in range(2 * (n + 1))]       # two epochs per object, one iterator in flight per object
         r.shuffle(script)
         its, cur, done = {}, {}, []
+        started = collections.Counter()
+        per_obj = {o: [] for o in range(len(objs))}
         try:
             for o in script:
                 if o not in its:
+                    nd = len(rng.draws)
                     its[o] = iter(objs[o]); cur[o] = []
+                    try:
+                        first = next(its[o])
+                    except StopIteration:
+                        first = StopIteration
+                    new = rng.draws[nd:]
+                    if len(new) != 1:
+                        failures.append(dict(kind='history', summary=f'start of an epoch over a reshuffle dataset / a plain copy drew {len(new)} times from the generator (expected once)', config=dict(kind='copyobj', n=n, script=script)))
+                        raise _Skip()
+                    cops.append(f'COn {o}%nat (RStart {nl(new[0][1])})')
+                    cops.append(f'COn {o}%nat (RNext {started[o]}%nat)')
+                    per_obj[o].append(cur[o])
+                    started[o] += 1
+                    if first is StopIteration:
+                        done.append((o, cur[o])); del its[o]
+                    else:
+                        cur[o].append(int(first))
+                    continue
+                cops.append(f'COn {o}%nat (RNext {started[o] - 1}%nat)')
                 try:
                     cur[o].append(int(next(its[o])))
                 except StopIteration:
                     done.append((o, cur[o]))
                     del its[o]
+        except _Skip:
+            continue
         except Exception as e:
             failures.append(dict(kind='history', summary=f'interleaved epochs over a reshuffle dataset and its copies raised {type(e).__name__}: {e}'[:300], config=dict(kind='copyobj', n=n, script=script)))
             continue
@@ -239,6 +275,9 @@ def run(tier):
         if bad:
             failures.append(dict(kind='history', summary=f'reshuffle dataset (n={n}) and {len(objs) - 1} plain copies, one iterator in flight per object, next()-script {script}: '
                                  f'object {bad[0][0]} yielded {bad[0][1]}, not a permutation of range({n})'[:600], config=dict(kind='copyobj', n=n, script=script)))
+        exp = '[' + '; '.join('[' + '; '.join(nl(x) for x in per_obj[o]) + ']' for o in range(len(objs))) + ']'
+        ccases.append(f'({n}%nat, [{"; ".join(cops)}], {exp})')
+        cmeta.append((n, seed, script, {o: per_obj[o] for o in per_obj}))
     # (a') frozen copies of a reshuffle object in flight (explicit copy(freeze=True), and the implicit ones taken by catch / lazy apply
     #      at the start of every iteration): later epochs of the same object must not disturb them.  Tied to ShuffleFreeze.v:
     #      every draw of the generator is recorded and fed to the model as the oracle of FFreeze / RStart.
@@ -338,7 +377,8 @@ def run(tier):
         fh.write('Definition rcases : list rcase := [\n' + ';\n'.join(rcases) + '\n].\n')
         fh.write('Definition lcases : list lcase := [\n' + ';\n'.join(lcases) + '\n].\n')
         fh.write('Definition fcases : list fcase := [\n' + ';\n'.join(fcases) + '\n].\n')
-        fh.write('Eval vm_compute in (bad rcase_ok 0 rcases).\nEval vm_compute in (bad lcase_ok 0 lcases).\nEval vm_compute in (fbad 0 fcases).\n')
+        fh.write('Definition ccases : list ccase := [\n' + ';\n'.join(ccases) + '\n].\n')
+        fh.write('Eval vm_compute in (bad rcase_ok 0 rcases).\nEval vm_compute in (bad lcase_ok 0 lcases).\nEval vm_compute in (fbad 0 fcases).\nEval vm_compute in (cbad 0 ccases).\n')
     out = common.run_case_files([f])[f]
     parts = re.split(r'\n\s*=\s', '\n' + out)
     rb = [int(x) for x in re.findall(r'\d+', parts[1].split(':')[0])]
@@ -347,6 +387,10 @@ def run(tier):
         m = fmeta[i]
         failures.append(dict(kind='history', summary=f'frozen copies: model and implementation disagree on {m[0]} n={m[1]} seed={m[2]} script={m[3]} impl={m[4]}',
                              config=dict(kind='frozen', n=m[1], seed=m[2], script=m[3], how=m[0])))
+    for i in [int(x) for x in re.findall(r'\d+', parts[4].split(':')[0])]:
+        m = cmeta[i]
+        failures.append(dict(kind='history', summary=f'plain copies of a reshuffle dataset: model (ShuffleCopies.v: every object has its own index array) and implementation disagree on n={m[0]} seed={m[1]} script={m[2]} impl={m[3]}'[:700],
+                             config=dict(kind='copyobj', n=m[0], seed=m[1], script=m[2])))
     for i in rb:
         failures.append(dict(kind='history', summary=f'reshuffle: model and implementation disagree on n={rmeta[i][0]} script={rmeta[i][1]} impl={rmeta[i][2]}',
                              config=dict(kind='reshuffle', n=rmeta[i][0], script=rmeta[i][1])))
